@@ -1,6 +1,7 @@
 package rules
 
 import (
+	"sort"
 	"strings"
 
 	"verif/tools/internal/ir"
@@ -243,6 +244,10 @@ func checkC09(c *Ctx) {
 		r.Undecided("C09.e", "parseUnionMatchRule", "definition", "fc", "anchor function not found")
 	}
 
+	// (f) rejection inventory: the ways in which the union-match parsing family can reject a program are frozen, so that
+	// a match listing all cases (or ending with a default arm) cannot be rejected by a new path
+	checkC09Rejections(c, f, nr09(c, f))
+
 	// (d)
 	n := checkEXH(c, "C09.d", exhUnit{label: "fc", fset: f.M.Fset, pkg: f.M.Main().Types, prog: f.Prog.Funcs}, true)
 	if b := c.LoadFC("cmd/build_sample_md"); b != nil {
@@ -283,4 +288,124 @@ func checkC09(c *Ctx) {
 	} else {
 		r.Undecided("C09.d", "umrToGoReturn", "definition", "fc", "anchor function not found")
 	}
+}
+
+func nr09(c *Ctx, f *FC) map[string]bool {
+	_, frtProg, _ := libProg(c, "pkg/frt")
+	if frtProg == nil {
+		return map[string]bool{}
+	}
+	return noReturn(f.Prog, frtProg)
+}
+
+// the rejection messages of the union-match parsing family on the reviewed tree
+var c09Rejections = map[string]bool{
+	"parseMatchRules: Only default case, illegal.":  true,
+	"parseMatchRules: Unknown match case, illegal.": true,
+	"isUnionMatchRules: Can't distinguish String var pattern or union case only pattern. Syntax error for a while.": true,
+	"isUnionMatchRules: Unknown case rule of match expr(2)": true,
+	"isUnionMatchRules: Unknown case rule of match expr":    true,
+	"exaustiveCheck: match does not cover all cases. Can't find case: %s.": true,
+	// the sibling of isUnionMatchRules (same three diagnostics): a target whose type is not known while parsing
+	"isStringMatchRules: Can't distinguish String var pattern or union case only pattern. Syntax error for a while.": true,
+	"isStringMatchRules: Unknown case rule of match expr(2)": true,
+	"isStringMatchRules: Unknown case rule of match expr":    true,
+}
+
+func checkC09Rejections(c *Ctx, f *FC, nr map[string]bool) {
+	r := c.R
+	r.Rule("C09.f", "the rejection paths of union-match parsing are the reviewed ones (no new way to reject an exhaustive match)", 1)
+	family := map[string]bool{}
+	for _, n := range []string{"parseMatchExpr", "parseMatchRules", "parseURules", "parseUnionMatchRules", "parseUnionMatchRule", "exaustiveCheck", "isUnionMatchRules", "isDefaultMR", "parseDefaultMatchRule"} {
+		if fn, ok := f.Prog.ByName[n]; ok {
+			family[fn.Key] = true
+		}
+	}
+	if len(family) < 8 {
+		r.Undecided("C09.f", "-", "family", "fc", "anchor functions of union-match parsing not found")
+		return
+	}
+	// referrers
+	refs := map[string]map[string]bool{}
+	for _, fn := range f.Prog.Funcs {
+		ir.WalkFunc(fn, func(t ir.Term) bool {
+			if fr, ok := t.(*ir.FuncRef); ok {
+				if _, mine := f.Prog.ByKey[fr.Key]; mine && fr.Key != fn.Key {
+					if refs[fr.Key] == nil {
+						refs[fr.Key] = map[string]bool{}
+					}
+					refs[fr.Key][fn.Key] = true
+				}
+			}
+			return true
+		})
+	}
+	// private helpers: generated functions referenced only from the family
+	for changed := true; changed; {
+		changed = false
+		for _, fn := range f.Prog.Funcs {
+			if !fn.Generated || family[fn.Key] || len(refs[fn.Key]) == 0 {
+				continue
+			}
+			all := true
+			for rf := range refs[fn.Key] {
+				if !family[rf] {
+					all = false
+				}
+			}
+			if all {
+				family[fn.Key] = true
+				changed = true
+			}
+		}
+	}
+	found := map[string]bool{}
+	for _, fn := range f.Prog.Funcs {
+		if !family[fn.Key] {
+			continue
+		}
+		ir.WalkFunc(fn, func(t ir.Term) bool {
+			app, ok := t.(*ir.App)
+			if !ok {
+				return true
+			}
+			isNR := false
+			switch fun := app.Fun.(type) {
+			case *ir.FuncRef:
+				isNR = nr[fun.Key]
+			case *ir.Builtin:
+				isNR = fun.Name == "panic"
+			}
+			if !isNR {
+				return true
+			}
+			msg := ""
+			ir.Walk(app, func(x ir.Term) bool {
+				if l, ok := x.(*ir.Lit); ok && l.Kind.String() == "STRING" && msg == "" {
+					msg = l.Val
+				}
+				return true
+			})
+			if msg == "Union pattern fail. Never reached here." {
+				return true // fc's own never-reached default
+			}
+			found[fn.Name+": "+msg] = true
+			return true
+		})
+	}
+	var extra []string
+	for k := range found {
+		if !c09Rejections[k] {
+			extra = append(extra, k)
+		}
+	}
+	sort.Strings(extra)
+	var fam []string
+	for k := range family {
+		fam = append(fam, strings.TrimPrefix(k, f.Path+"."))
+	}
+	sort.Strings(fam)
+	r.Check(len(extra) == 0, "C09.f", "union-match parsing", "rejection-inventory", "fc",
+		sprintf("the %d functions of union-match parsing (incl. private helpers: %s) reject only through the %d reviewed diagnostics", len(fam), strings.Join(fam, ", "), len(found)),
+		"new rejection path(s) in union-match parsing: "+strings.Join(extra, " | ")+" — a match that lists all cases or ends with a default arm may now be rejected")
 }
